@@ -49,3 +49,39 @@ func verifLemmaSeq(s, t Sequence, n int) (antisym, zero, shift bool) {
 //@   loop 0: invariant forall r int :: isSeq(heap(page.seq, r))
 //@   at copy 0: assert arg0.arr == cur.bytes.arr
 //@   at copy 0: assert -1073741824 < sdiff32(cur.seq, start) && sdiff32(cur.seq, start) < 1073741824 ==> arg0.off == cur.bytes.off + sdiff32(cur.seq, start)
+
+// ---- stream lifecycle (C11): a half connection is completed once and receives no data afterwards ---------------
+
+// Assumption about user code (listed in the evidence): stream callbacks do not call back into the assembler.
+//@ ifacecontract Stream.ReassembledSG(sg ScatterGather, ac AssemblerContext)
+//@   props C11
+//@   modifies nothing
+//@ ifacecontract Stream.ReassemblyComplete(ac AssemblerContext) bool
+//@   props C11
+//@   modifies nothing
+
+// closeHalfConnection is the only place that completes a half (and, with both halves closed, the stream); it is
+// entered only for a half that is still open, so completion happens at most once per half.
+//@ func (a *Assembler) closeHalfConnection(conn *connection, half *halfconnection)
+//@   props C11
+//@   requires !half.closed
+//@   ensures half.closed
+
+// Data is handed to the stream (ReassembledSG) only for a half that has not been completed.
+//@ func (a *Assembler) sendToConnection(conn *connection, half *halfconnection, ac AssemblerContext) Sequence
+//@   props C11
+//@   requires !half.closed
+
+//@ func (a *Assembler) skipFlush(conn *connection, half *halfconnection)
+//@   props C11
+//@   requires !half.closed
+
+// The flush entry points are in scope so that their call sites are checked against the requires above: FlushAll
+// leaves its per-half loop only when the half is closed; flushClose reaches skipFlush / closeHalfConnection only
+// for a half that is still open.
+//@ func (a *Assembler) FlushAll() (closed int)
+//@   props C11
+
+//@ func (a *Assembler) flushClose(conn *connection, half *halfconnection, t time.Time, tc time.Time) (bool, bool)
+//@   props C11
+//@   loop 0: invariant !half.closed
